@@ -374,6 +374,45 @@ def check_frame_depth(ctx, rep, rule):
                         if upper and 0 < y[1] <= (1 << 24):
                             return True
         return False
+    def guarded_on_arm_paths(target_name):
+        """path-sensitive form for the dispatch function: on every enumerated path of an opcode arm that reaches the call, an
+        earlier branch compared frames.len() with a constant bound and the path took the bounded side (the guard may sit in a
+        helper that answers Ok / Err and is followed by `?`: then no branch dominates, but every surviving path passed it)"""
+        from rules import vmx as _vmx
+        from rules.shared import truth as _truth
+        v = _vmx.vmx(ctx)
+        seen = 0
+        for op, arm in v['arms'].items():
+            for r in arm['paths']:
+                p = r['path']
+                idx = [i for i, c in enumerate(p.calls) if c[1] == target_name]
+                if not idx:
+                    continue
+                seen += 1
+                ok = False
+                for (what, val, cb) in p.constraints:
+                    if what[0] != 'switch':
+                        continue
+                    c = what[1]
+                    tv = True if val is None else bool(val)
+                    while isinstance(c, tuple) and c and c[0] == 'unop' and c[1] == 'Not':
+                        c = c[2]
+                        tv = not tv
+                    if not (isinstance(c, tuple) and c and c[0] == 'binop' and c[1] in ('Lt', 'Le', 'Gt', 'Ge')):
+                        continue
+                    op_ = c[1] if tv else {'Lt': 'Ge', 'Le': 'Gt', 'Gt': 'Le', 'Ge': 'Lt'}[c[1]]
+                    a, b_ = psc.strip(c[2]), psc.strip(c[3])
+                    sa, sb = str(c[2]), str(c[3])
+                    for x, xs, y, side in ((a, sa, b_, 'l'), (b_, sb, a, 'r')):
+                        is_len = ('Vec::<T, A>::len' in xs or 'PtrMetadata' in xs) and ('.f%d' % fidx in xs or "'%s'" % fname in xs)
+                        if is_len and isinstance(y, tuple) and y and y[0] == 'int':
+                            upper = (side == 'l' and op_ in ('Lt', 'Le')) or (side == 'r' and op_ in ('Gt', 'Ge'))
+                            if upper and 0 < y[1] <= (1 << 24):
+                                ok = True
+                if not ok:
+                    return False
+        return seen > 0
+
     sites = []
     for fn in F.all_fns:
         if fn.crate != 'lib' or not fn.path.startswith('vm::VM::') or fn.path == 'vm::VM::new':
@@ -390,6 +429,9 @@ def check_frame_depth(ctx, rep, rule):
             callers = [(cf, cb, ct) for cf, cb, ct in F.callers_of(lambda p, fp=fn.path: p == fp) if cf.crate == 'lib']
             ok = bool(callers) and all(guarded(cf, cb) for cf, cb, ct in callers)
             where = 'at each of its %d call sites' % len(callers)
+            if not ok and callers:
+                ok = guarded_on_arm_paths(fn.path)
+                where = 'on every path of the opcode arm that reaches the push'
         rep.ob(ok, rule, fn.path, 'frames.push#%d' % n, 'the number of call frames is compared with a constant bound %s before a frame is pushed, the failing side being an error return%s' % (
             where, '' if ok else ' - missing: endless recursion without arguments or locals grows the frame list until the allocator aborts the process'), span_loc(t['span']))
     rep.count('frame_push_sites', n)
